@@ -118,7 +118,7 @@ func units(tier string) []mc.Unit {
 				case 1:
 					return &params{MaxCont: 2, ContKinds: full, Restart: true, Nested: true, AfterFull: true, Reader: true}
 				case 2:
-					return &params{MaxCont: 2, ContKinds: full, Restart: true, Nested: true, Reader: true}
+					return &params{MaxCont: 2, ContKinds: reduced[store], Restart: true, Nested: true, Reader: true}
 				}
 				return &params{MaxCont: 1, ContKinds: full, Restart: true}
 			})
@@ -133,7 +133,24 @@ func units(tier string) []mc.Unit {
 			})
 		}
 	}
-	return us
+	if tier != "thorough" {
+		return us
+	}
+	// the one- and two-block histories of the bridge and L1 info stores carry the two-block continuations, the nested
+	// reorgs and the reader: their choice trees are cut into slices so that no worker is left alone with one of them
+	var out []mc.Unit
+	for _, u := range us {
+		p := u.Params.(params)
+		switch {
+		case p.Store != sk.GER && p.Nested && len(p.History) == 1:
+			out = append(out, mc.Sliced(u, 12)...) //nolint:mnd
+		case p.Store != sk.GER && p.Nested && len(p.History) == 2:
+			out = append(out, mc.Sliced(u, 3)...) //nolint:mnd
+		default:
+			out = append(out, u)
+		}
+	}
+	return out
 }
 
 func b2i(b bool) int {
@@ -340,8 +357,13 @@ func absolute(c *mc.Ctx, p params, a *sk.Node, chain *sk.Chain) {
 func main() {
 	mc.Main(mc.Spec{
 		ID: "C04", Level: "exploration",
-		Units:              units,
-		Batch:              func(string) int { return 24 },
+		Units: units,
+		Batch: func(tier string) int {
+			if tier == "thorough" {
+				return 6
+			}
+			return 24
+		},
 		MaxEvalsPerProcess: 1200, // every store construction leaks ~3 descriptors (RunMigrations keeps a handle)
 		Run:                run,
 		Setup:              func(string) { kit.Quiet() },
